@@ -641,7 +641,9 @@ def blocks_keep_identity(ctx: Ctx, rep: Report, rid: str = "R16.18") -> None:
     `Acl.group`): a block that is rebuilt under the same heading is the same block for the user, so the AceGroup built
     for it receives the identifier and the note of the block it replaces."""
     rep.rule(rid)
-    f = ctx.func("Acl.group")
+    from .c15 import _group_func as _gf
+
+    f = _gf(ctx)  # helpers that return (flat list, identity table) are read as part of group()
     ag = ctx.cls("AceGroup")
     ctors = [x for x in own_nodes(f.node) if isinstance(x, ast.Call) and isinstance(x.func, ast.Name) and ctx.prog.resolve_name(f.module, x.func.id) is ag]
     rep.instance()
@@ -754,7 +756,9 @@ def block_identity_key_is_unique(ctx: Ctx, rep: Report, rid: str = "R16.25") -> 
     of the first heading are all named "" - so a table keyed by the name gives the note and number of one unnamed block to
     another one."""
     rep.rule(rid)
-    f = ctx.func("Acl.group")
+    from .c15 import _group_func as _gf
+
+    f = _gf(ctx)  # helpers that return (flat list, identity table) are read as part of group()
     env = {}
     for x in own_nodes(f.node):
         if isinstance(x, (ast.Assign, ast.AnnAssign)) and x.value is not None:
@@ -801,7 +805,9 @@ def blocks_get_acl_settings(ctx: Ctx, rep: Report, rid: str = "R16.24") -> None:
     one of them takes the default and stamps IT on its entries (AceGroup.items): after grouping, the entries of an
     `ios 15.2` ACL have version 0 and render `eq msrpc`, a name that version does not have."""
     rep.rule(rid)
-    f = ctx.func("Acl.group")
+    from .c15 import _group_func as _gf
+
+    f = _gf(ctx)  # helpers that return (flat list, identity table) are read as part of group()
     ag = ctx.cls("AceGroup")
     ctors = [x for x in own_nodes(f.node) if isinstance(x, ast.Call) and isinstance(x.func, ast.Name) and ctx.prog.resolve_name(f.module, x.func.id) is ag]
     st = ctx.prog.find_func("Acl.items.setter")
@@ -832,7 +838,9 @@ def blocks_keep_number(ctx: Ctx, rep: Report, rid: str = "R16.23") -> None:
     re-initialising switch end in `group()`, so a block rebuilt without its number makes `acl.copy().data() != acl.data()`
     and lets `sort()` fall back to comparing text ('100 ...' < '80 ...') after `resequence()`."""
     rep.rule(rid)
-    f = ctx.func("Acl.group")
+    from .c15 import _group_func as _gf
+
+    f = _gf(ctx)  # helpers that return (flat list, identity table) are read as part of group()
     ag = ctx.cls("AceGroup")
     ctors = [x for x in own_nodes(f.node) if isinstance(x, ast.Call) and isinstance(x.func, ast.Name) and ctx.prog.resolve_name(f.module, x.func.id) is ag]
     rep.instance()
